@@ -80,17 +80,17 @@ def main():
         """-> {"out": ..., "secs", "peak"} of one call (typed representation), errors caught per call"""
         tracemalloc.start()
         tracemalloc.reset_peak()
-        t0 = time.perf_counter()
+        t0, c0 = time.perf_counter(), time.process_time()
         try:
             r = thunk()
-            secs = time.perf_counter() - t0
+            secs, cpu = time.perf_counter() - t0, time.process_time() - c0
             peak = tracemalloc.get_traced_memory()[1]
-            return {"out": {"ok": typed_json(r)}, "secs": round(secs, 4), "peak": int(peak)}
+            return {"out": {"ok": typed_json(r)}, "secs": round(secs, 4), "cpu": round(cpu, 4), "peak": int(peak)}
         except BaseException as e:  # noqa: BLE001
             if isinstance(e, KeyboardInterrupt | SystemExit):
                 raise
             return {"out": {"err": "memory" if isinstance(e, MemoryError) else impl.err_class(e), "type": type(e).__name__, "msg": str(e)[:300]},
-                    "secs": round(time.perf_counter() - t0, 4), "peak": 0}
+                    "secs": round(time.perf_counter() - t0, 4), "cpu": round(time.process_time() - c0, 4), "peak": 0}
         finally:
             tracemalloc.stop()
 
@@ -178,6 +178,10 @@ def main():
         fmt = c.get("format")
         if op == "noop":
             return {"scalar": 0}
+        if op == "calibrate":
+            import loadtol
+
+            return loadtol.reference()
         if op in ("transpose", "reshape", "flip", "roll", "squeeze", "expand_dims", "getitem", "reduce", "triu", "tril", "diagonal",
                   "from_coo", "roundtrip", "method", "asformat"):
             x = as_fmt(coo(c["x"]), fmt)
@@ -300,21 +304,21 @@ def main():
                 if c.get("untraced"):
                     # time only: tracemalloc charges ~10 µs to every allocation, and a kernel that allocates per row (the row sort of
                     # _dot_csr_csr) on 10^6 rows would be timed for its tracing, not for its work
-                    t0 = time.perf_counter()
+                    t0, c0 = time.perf_counter(), time.process_time()
                     r = thunk()
-                    secs = time.perf_counter() - t0
+                    secs, cpu = time.perf_counter() - t0, time.process_time() - c0
                     peak = 0
                 else:
                     tracemalloc.start()
                     tracemalloc.reset_peak()
-                    t0 = time.perf_counter()
+                    t0, c0 = time.perf_counter(), time.process_time()
                     try:
                         r = thunk()
-                        secs = time.perf_counter() - t0
+                        secs, cpu = time.perf_counter() - t0, time.process_time() - c0
                         peak = tracemalloc.get_traced_memory()[1]
                     finally:
                         tracemalloc.stop()
-                ans.update(out={"ok": typed_json(r) if c.get("typed") else rep(r, bool(c.get("want_coo")))}, peak=int(peak), secs=round(secs, 4), result_type=type(r).__name__,
+                ans.update(out={"ok": typed_json(r) if c.get("typed") else rep(r, bool(c.get("want_coo")))}, peak=int(peak), secs=round(secs, 4), cpu=round(cpu, 4), result_type=type(r).__name__,
                            nnz_out=int(getattr(r, "nnz", 1)), maxrss_kb=resource.getrusage(resource.RUSAGE_SELF).ru_maxrss)
         except BaseException as e:  # noqa: BLE001
             if isinstance(e, KeyboardInterrupt | SystemExit):
